@@ -85,6 +85,8 @@ structure KeyTok (K : List Char) (s : List Char) : Prop where
   chars : ∀ x ∈ K, lineChar x = true
   noMarker : ∀ after, isDocMarker ⟨0, K ++ ':' :: after⟩ "---".toList = false ∧
     isDocMarker ⟨0, K ++ ':' :: after⟩ "...".toList = false
+  /-- alone on a line (after `? `: the explicit form of a key too long for an implicit key) it reads as the string -/
+  scalar : ScalarTok K (.str s)
 
 /-- a line of the body of a block scalar: indented (never at column 0, hence no document marker / directive),
 the leading blanks of the content line counted as indentation, on one line; it may be blank or look like a
@@ -281,7 +283,8 @@ theorem key_line_notSkippable {K k : List Char} (hk : KeyTok K k) (i : Nat) (aft
   obtain ⟨c, cs, rfl, hc⟩ := hk.start
   exact notSkippable_of_head (keyStart_ne hc '#' (by decide))
 
-theorem blockMap_cons (fuel c : Nat) {K k h : List Char} (ls : List Line) (hk : KeyTok K k) (hh : ValHead h) :
+theorem blockMap_cons (fuel c : Nat) {K k h : List Char} (ls : List Line) (hk : KeyTok K k) (hh : ValHead h)
+    (hfit : fitsImplicit K = true) :
     blockMap (fuel + 1) c (⟨c, K ++ ':' :: h⟩ :: ls) =
       (match valueParse fuel c (K.length + 1) h ls with
        | none => none
@@ -289,8 +292,23 @@ theorem blockMap_cons (fuel c : Nat) {K k h : List Char} (ls : List Line) (hk : 
   rw [blockMap, skipBlank_cons ls (key_line_notSkippable hk c h)]
   simp only [bne_self_eq_false, Bool.false_eq_true, if_false, hk.cls h, hk.ik h hh.colonEnds]
   have hlen : (K ++ ':' :: h).length - h.length = K.length + 1 := by simp; omega
-  simp only [hlen, valueParse]
+  have hshort : ¬ (K.length + 1 > maxImplicitKey + 1) := by
+    simp only [fitsImplicit, decide_eq_true_eq] at hfit
+    simp only [maxImplicitKey]; omega
+  simp only [hlen, valueParse, hshort, if_false]
   rfl
+
+/-- (the rule at work) a key token longer than 1024 characters followed by `:` is NOT read as an implicit key: the
+reader rejects the mapping, as the real parser does -/
+theorem blockMap_long_rejected (fuel c : Nat) {K k h : List Char} (ls : List Line) (hk : KeyTok K k) (hh : ValHead h)
+    (hfit : fitsImplicit K = false) : blockMap (fuel + 1) c (⟨c, K ++ ':' :: h⟩ :: ls) = none := by
+  rw [blockMap, skipBlank_cons ls (key_line_notSkippable hk c h)]
+  simp only [bne_self_eq_false, Bool.false_eq_true, if_false, hk.cls h, hk.ik h hh.colonEnds]
+  have hlen : (K ++ ':' :: h).length - h.length = K.length + 1 := by simp; omega
+  have hlong : K.length + 1 > maxImplicitKey + 1 := by
+    simp only [fitsImplicit, decide_eq_false_iff_not] at hfit
+    simp only [maxImplicitKey]; omega
+  simp only [hlen, hlong, if_true]
 
 theorem skipTag_keyStart {c : Char} (cs : List Char) (hc : keyStart c = true) : skipTag (c :: cs) = c :: cs := by
   unfold skipTag
@@ -430,9 +448,14 @@ theorem key_itemHead {K k : List Char} (hk : KeyTok K k) (after : List Char) : I
   obtain ⟨c, cs, rfl, hc⟩ := hk.start
   exact ⟨by simp, by simp only [List.cons_append, List.head?_cons, ne_eq, Option.some.injEq]; exact keyStart_ne hc ' ' (by decide)⟩
 
-theorem variantItem_head {N n : List Char} (hn : KeyTok N n) (r : List Char × List Line × Bool) :
-    ItemHead (variantItem N r).1 := by
-  simpa [variantItem] using key_itemHead hn r.1
+theorem variantItem_head {N n : List Char} (hn : KeyTok N n) (c : Nat) (r ri : List Char × List Line × Bool) :
+    ItemHead (variantItem c N r ri).1 := by
+  cases hfit : fitsImplicit N
+  · simp only [variantItem, hfit, Bool.false_eq_true, if_false]; exact ⟨by simp, by simp⟩
+  · simpa [variantItem, hfit] using key_itemHead hn r.1
+
+theorem variantVal_fst (c : Nat) (N : List Char) (r ri : List Char × List Line × Bool) : (variantVal c N r ri).1 = [] := by
+  cases hfit : fitsImplicit N <;> simp [variantVal, hfit]
 
 /-- the fixed tokens -/
 theorem scalarTok_null : ScalarTok "null".toList .null := by
@@ -502,13 +525,13 @@ theorem itemHead_layItem {P : LeafPred} {T : Toks} {k : Nat} (hr : ReadContract 
   | .newtypeStruct v, hv, d, lvb => by simp only [inFragP] at hv; simpa [layItem] using itemHead_layItem hr cp v hv d lvb
   | .newtypeVariant n v, hv, d, lvb => by
     simp only [inFragP, Bool.and_eq_true] at hv
-    simp only [layItem]; exact variantItem_head (hr.name n hv.1) _
+    simp only [layItem]; exact variantItem_head (hr.name n hv.1) _ _ _
   | .tupleVariant n xs, hv, d, lvb => by
     simp only [inFragP, Bool.and_eq_true] at hv
-    simp only [layItem]; exact variantItem_head (hr.name n hv.1) _
+    simp only [layItem]; exact variantItem_head (hr.name n hv.1) _ _ _
   | .structVariant n fs, hv, d, lvb => by
     simp only [inFragP, Bool.and_eq_true] at hv
-    simp only [layItem]; exact variantItem_head (hr.name n hv.1) _
+    simp only [layItem]; exact variantItem_head (hr.name n hv.1) _ _ _
   | .seq xs, _, d, lvb => by simp only [layItem]; exact laySeqItem_head T k cp d lvb xs
   | .tuple xs, _, d, lvb => by simp only [layItem]; exact laySeqItem_head T k cp d lvb xs
   | .tupleStruct xs, _, d, lvb => by simp only [layItem]; exact laySeqItem_head T k cp d lvb xs
@@ -521,8 +544,11 @@ theorem itemHead_layItem {P : LeafPred} {T : Toks} {k : Nat} (hr : ReadContract 
       simp only [inFragEntriesP, Bool.and_eq_true, Bool.or_eq_true] at hv
       rcases hv.1.1.1 with hsk | hck
       · obtain ⟨kt, rfl, hkt⟩ := keyOk_iff hsk
-        simp only [layItem, layMapItem, keyOf, List.append_assoc, List.singleton_append]
-        exact key_itemHead (hr.key kt hkt) _
+        cases hfit : fitsImplicit (T.key kt)
+        · simp only [layItem, layMapItem, keyOf, hfit, Bool.false_eq_true, if_false]
+          exact ⟨by simp, by simp⟩
+        · simp only [layItem, layMapItem, keyOf, hfit, if_true, List.append_assoc, List.singleton_append]
+          exact key_itemHead (hr.key kt hkt) _
       · simp only [layItem, layMapItem, keyOf_complex' kk hck.1]
         exact ⟨by simp, by simp⟩
   | .flowSeq _, hv, _, _ => by simp [inFragP] at hv
@@ -562,9 +588,9 @@ theorem valHead_layVal {P : LeafPred} {T : Toks} {k : Nat} (hr : ReadContract P 
     simpa [layVal] using valHead_leaf (hr.unit (.val m) e n hv)
   | .some v, hv, m, lvb => by simp only [inFragP] at hv; simpa [layVal] using valHead_layVal hr cp im v hv m lvb
   | .newtypeStruct v, hv, m, lvb => by simp only [inFragP] at hv; simpa [layVal] using valHead_layVal hr cp im v hv m lvb
-  | .newtypeVariant n v, _, m, lvb => by simp only [layVal, variantVal]; exact Or.inl rfl
-  | .tupleVariant n xs, _, m, lvb => by simp only [layVal, variantVal]; exact Or.inl rfl
-  | .structVariant n fs, _, m, lvb => by simp only [layVal, variantVal]; exact Or.inl rfl
+  | .newtypeVariant n v, _, m, lvb => by simp only [layVal, variantVal_fst]; exact Or.inl rfl
+  | .tupleVariant n xs, _, m, lvb => by simp only [layVal, variantVal_fst]; exact Or.inl rfl
+  | .structVariant n fs, _, m, lvb => by simp only [layVal, variantVal_fst]; exact Or.inl rfl
   | .seq xs, _, m, lvb => by simp only [layVal]; exact seqValOf_head _ _
   | .tuple xs, _, m, lvb => by simp only [layVal]; exact seqValOf_head _ _
   | .tupleStruct xs, _, m, lvb => by simp only [layVal]; exact seqValOf_head _ _
@@ -806,10 +832,15 @@ theorem layEntries_start {P : LeafPred} {T : Toks} {k : Nat} (hr : ReadContract 
   simp only [inFragEntriesP, Bool.and_eq_true, Bool.or_eq_true] at hv
   rcases hv.1.1 with hsk | hck
   · obtain ⟨kt, rfl, hkt⟩ := keyOk_iff hsk
-    refine ⟨T.key kt ++ ':' :: (layVal T k cp true c lvb v).1,
-      (layVal T k cp true c lvb v).2.1 ++ (layEntries T k cp c (layVal T k cp true c lvb v).2.2 es).1, ?_,
-      MapStart.key (hr.key kt hkt) (valHead_layVal hr cp true v hv.1.2 c lvb)⟩
-    simp [layEntries, keyOf]
+    cases hfit : fitsImplicit (T.key kt)
+    · refine ⟨'?' :: ' ' :: T.key kt,
+        ⟨c, [':', ' '] ++ (layItem T k cp c false v).1⟩ :: (layItem T k cp c false v).2.1 ++
+          (layEntries T k cp c (layItem T k cp c false v).2.2 es).1, ?_, MapStart.question (hr.key kt hkt).scalar.itemHead⟩
+      simp [layEntries, keyOf, hfit]
+    · refine ⟨T.key kt ++ ':' :: (layVal T k cp true c lvb v).1,
+        (layVal T k cp true c lvb v).2.1 ++ (layEntries T k cp c (layVal T k cp true c lvb v).2.2 es).1, ?_,
+        MapStart.key (hr.key kt hkt) (valHead_layVal hr cp true v hv.1.2 c lvb)⟩
+      simp [layEntries, keyOf, hfit]
   · refine ⟨'?' :: ' ' :: (layItem T k cp c lvb kk).1,
       (layItem T k cp c lvb kk).2.1 ++ ⟨c, [':', ' '] ++ (layItem T k cp c false v).1⟩ :: (layItem T k cp c false v).2.1 ++
         (layEntries T k cp c (layItem T k cp c false v).2.2 es).1, ?_, MapStart.question (itemHead_layItem hr cp kk hck.2 c lvb)⟩
@@ -863,7 +894,9 @@ theorem reads_mapItem {P : LeafPred} {T : Toks} {k : Nat} {cp : Bool} (hr : Read
         ⟨c + 2, (layMapItem T k cp c lvb (e :: es')).1⟩ :: (layMapItem T k cp c lvb (e :: es')).2.1 := by
       intro lvb
       obtain ⟨kk, v⟩ := e
-      cases hko : keyOf kk <;> simp [layEntries, layMapItem, hko]
+      cases hko : keyOf kk with
+      | none => simp [layEntries, layMapItem, hko]
+      | some kt => cases hfit : fitsImplicit (T.key kt) <;> simp [layEntries, layMapItem, hko, hfit]
     obtain ⟨t, ls, he, ht⟩ := layEntries_start hr cp (c + 2) false (e := e) (es := es') hv
     have ht' : MapStart (layMapItem T k cp c lvb (e :: es')).1 := by
       have := hlay lvb; rw [he] at this
@@ -883,19 +916,19 @@ theorem reads_entries_nil {T : Toks} {k : Nat} {cp : Bool} : ReadsEntries T k cp
   simpa [layEntries, eraseEntries] using blockMap_end f' c hd
 
 theorem reads_entries_cons {P : LeafPred} {T : Toks} {k : Nat} {cp : Bool} (hr : ReadContract P T k) {kt : List Char} {v : SVal} {es : List (SVal × SVal)}
-    (hk : P.key kt = true) (hvv : inFragP P v = true) (hes : inFragEntriesP P es = true)
+    (hk : P.key kt = true) (hfit : fitsImplicit (T.key kt) = true) (hvv : inFragP P v = true) (hes : inFragEntriesP P es = true)
     (h1 : ReadsVal (fun c im lvb => layVal T k cp im c lvb v) (erase v)) (h2 : ReadsEntries T k cp es) :
     ReadsEntries T k cp ((.str kt, v) :: es) := by
   intro fuel c lvb rest hfuel hd
   have hh := valHead_layVal hr cp true v hvv c lvb
-  simp only [layEntries, keyOf, mu, mu_append, List.length_append, List.length_cons, List.length_nil] at hfuel
+  simp only [layEntries, keyOf, hfit, if_true, mu, mu_append, List.length_append, List.length_cons, List.length_nil] at hfuel
   obtain ⟨f', rfl⟩ : ∃ f', fuel = f' + 1 := ⟨fuel - 1, by omega⟩
   have hrest := entries_rest_end hr cp c (layVal T k cp true c lvb v).2.2 hes hd
   have h1 := h1 f' c true lvb ((T.key kt).length + 1) ((layEntries T k cp c (layVal T k cp true c lvb v).2.2 es).1 ++ rest) (by dsimp only; omega) hrest
   have h2 := h2 f' c (layVal T k cp true c lvb v).2.2 rest (by omega) hd
-  simp only [layEntries, keyOf, List.cons_append, List.append_assoc, List.singleton_append, List.nil_append, eraseEntries, erase]
+  simp only [layEntries, keyOf, hfit, if_true, List.cons_append, List.append_assoc, List.singleton_append, List.nil_append, eraseEntries, erase]
   try simp only [List.append_assoc] at h1
-  rw [blockMap_cons f' c _ (hr.key kt hk) hh]
+  rw [blockMap_cons f' c _ (hr.key kt hk) hh hfit]
   simp only [h1, h2]
   rfl
 
@@ -924,38 +957,98 @@ theorem reads_entries_cons_complex {P : LeafPred} {T : Toks} {k : Nat} {cp : Boo
   simp only [hv0, h2]
   rfl
 
+/-- an entry whose string key is too long for an implicit key: `? key` / `: value` -/
+theorem reads_entries_cons_long {P : LeafPred} {T : Toks} {k : Nat} {cp : Bool} (hr : ReadContract P T k) {kt : List Char} {v : SVal} {es : List (SVal × SVal)}
+    (hk : P.key kt = true) (hfit : fitsImplicit (T.key kt) = false) (hvv : inFragP P v = true) (hes : inFragEntriesP P es = true)
+    (h1 : ReadsItem (fun c lvb => layItem T k cp c lvb v) (erase v)) (h2 : ReadsEntries T k cp es) :
+    ReadsEntries T k cp ((.str kt, v) :: es) := by
+  intro fuel c lvb rest hfuel hd
+  have hkt := hr.key kt hk
+  have hhk := hkt.scalar.itemHead
+  have hhv := itemHead_layItem hr cp v hvv c false
+  simp only [layEntries, keyOf, hfit, Bool.false_eq_true, if_false, mu, mu_append, List.length_append, List.length_cons, List.length_nil] at hfuel
+  obtain ⟨f', rfl⟩ : ∃ f', fuel = f' + 2 := ⟨fuel - 2, by omega⟩
+  have hrest := (entries_rest_end hr cp c (layItem T k cp c false v).2.2 hes hd).ded
+  have hk0 := hkt.scalar.read f' (c + 1) none false (c + 2)
+    (⟨c, ':' :: ' ' :: (layItem T k cp c false v).1⟩ :: (layItem T k cp c false v).2.1 ++ (layEntries T k cp c (layItem T k cp c false v).2.2 es).1 ++ rest)
+    (by omega) (DedLt.cons _ _ (by simp) (notSkippable_of_head (by decide)))
+  have hv0 := h1 (f' + 1) c (some c) false ((layEntries T k cp c (layItem T k cp c false v).2.2 es).1 ++ rest) (by dsimp only; omega) hrest
+  have h2 := h2 (f' + 1) c (layItem T k cp c false v).2.2 rest (by omega) hd
+  simp only [layEntries, keyOf, hfit, Bool.false_eq_true, if_false, List.cons_append, List.append_assoc, List.singleton_append, List.nil_append,
+    eraseEntries, erase]
+  simp only [List.cons_append, List.append_assoc] at hk0 hv0
+  rw [show f' + 2 = (f' + 1) + 1 from rfl, blockMap_cons_complex (f' + 1) c _ _ hhk hhv hk0]
+  simp only [hv0, h2]
+  rfl
+
 /-! ### variants -/
+
+/-- the one-entry mapping `? Variant` / `: payload` whose lines start at column `m` (name too long for an implicit key) -/
+theorem blockNode_explicitVariant (fuel n : Nat) (seqAt : Option Nat) (m : Nat) {N nm : List Char} (hn : KeyTok N nm)
+    {ri : List Char × List Line × Bool} {p : PVal} (hhi : ItemHead ri.1) (rest : List Line) (hi : n ≤ m)
+    (hfuel : fuel ≥ 2 * (ri.1.length + 1 + mu ri.2.1) + 2)
+    (hri : blockNode (fuel + 1) (m + 1) (some m) false (⟨m + 2, ri.1⟩ :: (ri.2.1 ++ rest)) = some (p, rest))
+    (hd : DedLt m rest) :
+    blockNode (fuel + 3) n seqAt false (⟨m, '?' :: ' ' :: N⟩ :: ⟨m, ':' :: ' ' :: ri.1⟩ :: (ri.2.1 ++ rest)) = some (.map [(.str nm, p)], rest) := by
+  have hhk := hn.scalar.itemHead
+  have hk0 := hn.scalar.read fuel (m + 1) none false (m + 2) (⟨m, ':' :: ' ' :: ri.1⟩ :: (ri.2.1 ++ rest))
+    (by omega) (DedLt.cons _ _ (by simp) (notSkippable_of_head (by decide)))
+  rw [show fuel + 3 = (fuel + 2) + 1 from rfl, blockNode_question (fuel + 2) n seqAt m _ hhk hi,
+    show fuel + 2 = (fuel + 1) + 1 from rfl, blockMap_cons_complex (fuel + 1) m _ _ hhk hhi hk0, hri]
+  simp [blockMap_end fuel m hd, hasDupKey]
 
 /-- `Variant: payload` right after `key:` (the variant key `k` columns under the parent keys) -/
 theorem reads_variantVal {k : Nat} (hk : k ≥ 1) {N n : List Char} (hn : KeyTok N n) {r : Nat → Bool → Bool → List Char × List Line × Bool}
-    {p : PVal} (hh : ∀ c im lvb, ValHead (r c im lvb).1) (hr : ReadsVal r p) :
-    ReadsVal (fun c _ lvb => variantVal (c + k) N (r (c + k) true lvb)) (.map [(.str n, p)]) := by
+    {ri : Nat → Bool → List Char × List Line × Bool}
+    {p : PVal} (hh : ∀ c im lvb, ValHead (r c im lvb).1) (hr : ReadsVal r p)
+    (hhi : ∀ c lvb, ItemHead (ri c lvb).1) (hri : ReadsItem ri p) :
+    ReadsVal (fun c _ lvb => variantVal (c + k) N (r (c + k) true lvb) (ri (c + k) lvb)) (.map [(.str n, p)]) := by
   intro fuel c im lvb klen rest hfuel hd
-  have hh' := hh (c + k) true lvb
-  simp only [variantVal, valueParse_block, List.cons_append, mu, List.length_nil, List.length_append,
-    List.length_cons] at hfuel ⊢
-  obtain ⟨f', rfl⟩ : ∃ f', fuel = f' + 2 := ⟨fuel - 2, by omega⟩
-  have ih := hr f' (c + k) true lvb (N.length + 1) rest (by omega) (hd.mono (by omega))
-  rw [show N ++ [':'] ++ (r (c + k) true lvb).1 = N ++ ':' :: (r (c + k) true lvb).1 by simp]
-  rw [blockNode_key (f' + 1) (c + 1) _ (c + k) _ hn hh' (by omega),
-    blockMap_cons f' (c + k) _ hn hh', ih]
-  obtain ⟨f'', rfl⟩ : ∃ f'', f' = f'' + 1 := ⟨f' - 1, by omega⟩
-  simp [blockMap_end f'' (c + k) (hd.ded.mono (by omega)), hasDupKey]
+  cases hfit : fitsImplicit N
+  · simp only [variantVal, hfit, Bool.false_eq_true, if_false, valueParse_block, List.cons_append, mu, List.length_nil, List.length_append,
+      List.length_cons] at hfuel ⊢
+    obtain ⟨f', rfl⟩ : ∃ f', fuel = f' + 3 := ⟨fuel - 3, by omega⟩
+    have ih := hri (f' + 1) (c + k) (some (c + k)) lvb rest (by omega) (hd.ded.mono (by omega))
+    exact blockNode_explicitVariant f' (c + 1) (some c) (c + k) hn (hhi (c + k) lvb) rest (by omega) (by omega) ih (hd.ded.mono (by omega))
+  · have hh' := hh (c + k) true lvb
+    simp only [variantVal, hfit, if_true, valueParse_block, List.cons_append, mu, List.length_nil, List.length_append,
+      List.length_cons] at hfuel ⊢
+    obtain ⟨f', rfl⟩ : ∃ f', fuel = f' + 2 := ⟨fuel - 2, by omega⟩
+    have ih := hr f' (c + k) true lvb (N.length + 1) rest (by omega) (hd.mono (by omega))
+    rw [show N ++ [':'] ++ (r (c + k) true lvb).1 = N ++ ':' :: (r (c + k) true lvb).1 by simp]
+    rw [blockNode_key (f' + 1) (c + 1) _ (c + k) _ hn hh' (by omega),
+      blockMap_cons f' (c + k) _ hn hh' hfit, ih]
+    obtain ⟨f'', rfl⟩ : ∃ f'', f' = f'' + 1 := ⟨f' - 1, by omega⟩
+    simp [blockMap_end f'' (c + k) (hd.ded.mono (by omega)), hasDupKey]
 
 /-- `Variant: payload` right after `- ` (the variant key two columns after the dash) -/
 theorem reads_variantItem {N n : List Char} (hn : KeyTok N n) {r : Nat → Bool → Bool → List Char × List Line × Bool}
-    {p : PVal} (hh : ∀ c im lvb, ValHead (r c im lvb).1) (hr : ReadsVal r p) :
-    ReadsItem (fun c lvb => variantItem N (r (c + 2) true lvb)) (.map [(.str n, p)]) := by
+    {ri : Nat → Bool → List Char × List Line × Bool}
+    {p : PVal} (hh : ∀ c im lvb, ValHead (r c im lvb).1) (hr : ReadsVal r p)
+    (hhi : ∀ c lvb, ItemHead (ri c lvb).1) (hri : ReadsItem ri p) :
+    ReadsItem (fun c lvb => variantItem c N (r (c + 2) true lvb) (ri (c + 2) lvb)) (.map [(.str n, p)]) := by
   intro fuel c seqAt lvb rest hfuel hd
-  have hh' := hh (c + 2) true lvb
-  simp only [variantItem, List.length_append, List.length_cons, List.length_nil, List.cons_append] at hfuel ⊢
-  obtain ⟨f', rfl⟩ : ∃ f', fuel = f' + 2 := ⟨fuel - 2, by omega⟩
-  have ih := hr f' (c + 2) true lvb (N.length + 1) rest (by omega) (hd.mono (by omega)).seqEnd
-  rw [show N ++ [':'] ++ (r (c + 2) true lvb).1 = N ++ ':' :: (r (c + 2) true lvb).1 by simp]
-  rw [show f' + 2 = f' + 1 + 1 from rfl, blockNode_key (f' + 1) (c + 1) seqAt (c + 2) _ hn hh' (by omega),
-    blockMap_cons f' (c + 2) _ hn hh', ih]
-  obtain ⟨f'', rfl⟩ : ∃ f'', f' = f'' + 1 := ⟨f' - 1, by omega⟩
-  simp [blockMap_end f'' (c + 2) (hd.mono (by omega)), hasDupKey]
+  cases hfit : fitsImplicit N
+  · simp only [variantItem, hfit, Bool.false_eq_true, if_false, List.length_append, List.length_cons, List.length_nil, List.cons_append,
+      mu] at hfuel ⊢
+    obtain ⟨f', rfl⟩ : ∃ f', fuel = f' + 3 := ⟨fuel - 3, by omega⟩
+    have ih := hri (f' + 1) (c + 2) (some (c + 2)) lvb rest (by omega) (hd.mono (by omega))
+    exact blockNode_explicitVariant f' (c + 1) seqAt (c + 2) hn (hhi (c + 2) lvb) rest (by omega) (by omega) ih (hd.mono (by omega))
+  · have hh' := hh (c + 2) true lvb
+    simp only [variantItem, hfit, if_true, List.length_append, List.length_cons, List.length_nil, List.cons_append] at hfuel ⊢
+    obtain ⟨f', rfl⟩ : ∃ f', fuel = f' + 2 := ⟨fuel - 2, by omega⟩
+    have ih := hr f' (c + 2) true lvb (N.length + 1) rest (by omega) (hd.mono (by omega)).seqEnd
+    rw [show N ++ [':'] ++ (r (c + 2) true lvb).1 = N ++ ':' :: (r (c + 2) true lvb).1 by simp]
+    rw [show f' + 2 = f' + 1 + 1 from rfl, blockNode_key (f' + 1) (c + 1) seqAt (c + 2) _ hn hh' (by omega),
+      blockMap_cons f' (c + 2) _ hn hh' hfit, ih]
+    obtain ⟨f'', rfl⟩ : ∃ f'', f' = f'' + 1 := ⟨f' - 1, by omega⟩
+    simp [blockMap_end f'' (c + 2) (hd.mono (by omega)), hasDupKey]
+
+theorem layMapItem_head {P : LeafPred} {T : Toks} {k : Nat} (hr : ReadContract P T k) (cp : Bool) {fs : List (SVal × SVal)}
+    (hv : inFragEntriesP P fs = true) (hdup : hasDupKey (eraseEntries fs) = false) (d : Nat) (lvb : Bool) :
+    ItemHead (layMapItem T k cp d lvb fs).1 := by
+  have := itemHead_layItem hr cp (.map true fs) (by simp [inFragP, hv, hdup]) d lvb
+  simpa [layItem] using this
 
 /-! ### the reader theorem -/
 
@@ -993,16 +1086,23 @@ theorem read_val {P : LeafPred} {T : Toks} {k : Nat} {cp : Bool} (hr : ReadContr
   | .newtypeVariant n v, hv => by
     simp only [inFragP, Bool.and_eq_true] at hv
     simpa [layVal, erase] using reads_variantVal hk (hr.name n hv.1) (r := fun c im lvb => layVal T k cp im c lvb v)
+      (ri := fun c lvb => layItem T k cp c lvb v)
       (fun c im lvb => valHead_layVal hr cp im v hv.2 c lvb) (read_val hr hk v hv.2)
+      (fun c lvb => itemHead_layItem hr cp v hv.2 c lvb) (read_item hr hk v hv.2)
   | .tupleVariant n xs, hv => by
     simp only [inFragP, Bool.and_eq_true] at hv
     simpa [layVal, erase] using reads_variantVal hk (hr.name n hv.1) (r := fun c im _ => seqValOf xs.isEmpty (layItems T k cp (seqCol k cp im c) false xs).1)
+      (ri := fun c lvb => laySeqItem T k cp c lvb xs)
       (fun _ _ _ => seqValOf_head _ _) (reads_seqVal hr hk hv.2 (read_items hr hk xs hv.2))
+      (fun c lvb => laySeqItem_head T k cp c lvb xs) (reads_seqItem hr hv.2 (read_items hr hk xs hv.2))
   | .structVariant n fs, hv => by
     simp only [inFragP, Bool.and_eq_true, decide_eq_true_eq] at hv
     simpa [layVal, erase] using reads_variantVal hk (hr.name n hv.1)
       (r := fun c _ lvb => mapValOf (c + k) lvb fs.isEmpty (layEntries T k cp (c + k) false fs).1)
+      (ri := fun c lvb => layMapItem T k cp c lvb fs)
       (fun _ _ _ => mapValOf_head _ _ _ _) (reads_mapVal hr hk hv.2.1 (by simpa using hv.2.2) (read_entries hr hk fs hv.2.1))
+      (fun c lvb => layMapItem_head hr cp hv.2.1 (by simpa using hv.2.2) c lvb)
+      (reads_mapItem hr hv.2.1 (by simpa using hv.2.2) (read_entries hr hk fs hv.2.1))
   | .flowSeq _, hv => by simp [inFragP] at hv
   | .flowMap _, hv => by simp [inFragP] at hv
   | .commented _ _, hv => by simp [inFragP] at hv
@@ -1042,16 +1142,23 @@ theorem read_item {P : LeafPred} {T : Toks} {k : Nat} {cp : Bool} (hr : ReadCont
   | .newtypeVariant n v, hv => by
     simp only [inFragP, Bool.and_eq_true] at hv
     simpa [layItem, erase] using reads_variantItem (hr.name n hv.1) (r := fun c im lvb => layVal T k cp im c lvb v)
+      (ri := fun c lvb => layItem T k cp c lvb v)
       (fun c im lvb => valHead_layVal hr cp im v hv.2 c lvb) (read_val hr hk v hv.2)
+      (fun c lvb => itemHead_layItem hr cp v hv.2 c lvb) (read_item hr hk v hv.2)
   | .tupleVariant n xs, hv => by
     simp only [inFragP, Bool.and_eq_true] at hv
     simpa [layItem, erase] using reads_variantItem (hr.name n hv.1) (r := fun c im _ => seqValOf xs.isEmpty (layItems T k cp (seqCol k cp im c) false xs).1)
+      (ri := fun c lvb => laySeqItem T k cp c lvb xs)
       (fun _ _ _ => seqValOf_head _ _) (reads_seqVal hr hk hv.2 (read_items hr hk xs hv.2))
+      (fun c lvb => laySeqItem_head T k cp c lvb xs) (reads_seqItem hr hv.2 (read_items hr hk xs hv.2))
   | .structVariant n fs, hv => by
     simp only [inFragP, Bool.and_eq_true, decide_eq_true_eq] at hv
     simpa [layItem, erase] using reads_variantItem (hr.name n hv.1)
       (r := fun c _ lvb => mapValOf (c + k) lvb fs.isEmpty (layEntries T k cp (c + k) false fs).1)
+      (ri := fun c lvb => layMapItem T k cp c lvb fs)
       (fun _ _ _ => mapValOf_head _ _ _ _) (reads_mapVal hr hk hv.2.1 (by simpa using hv.2.2) (read_entries hr hk fs hv.2.1))
+      (fun c lvb => layMapItem_head hr cp hv.2.1 (by simpa using hv.2.2) c lvb)
+      (reads_mapItem hr hv.2.1 (by simpa using hv.2.2) (read_entries hr hk fs hv.2.1))
   | .flowSeq _, hv => by simp [inFragP] at hv
   | .flowMap _, hv => by simp [inFragP] at hv
   | .commented _ _, hv => by simp [inFragP] at hv
@@ -1071,7 +1178,9 @@ theorem read_entries {P : LeafPred} {T : Toks} {k : Nat} {cp : Bool} (hr : ReadC
     simp only [inFragEntriesP, Bool.and_eq_true, Bool.or_eq_true] at hv
     rcases hv.1.1 with hsk | hck
     · obtain ⟨kt, rfl, hkt⟩ := keyOk_iff hsk
-      exact reads_entries_cons hr hkt hv.1.2 hv.2 (read_val hr hk v hv.1.2) (read_entries hr hk es hv.2)
+      cases hfit : fitsImplicit (T.key kt)
+      · exact reads_entries_cons_long hr hkt hfit hv.1.2 hv.2 (read_item hr hk v hv.1.2) (read_entries hr hk es hv.2)
+      · exact reads_entries_cons hr hkt hfit hv.1.2 hv.2 (read_val hr hk v hv.1.2) (read_entries hr hk es hv.2)
     · exact reads_entries_cons_complex hr hck.1 hck.2 hv.1.2 hv.2 (read_item hr hk kk hck.2) (read_item hr hk v hv.1.2)
         (read_entries hr hk es hv.2)
 end
